@@ -98,7 +98,7 @@ def run(tier, seed, replay=None):
     assert_repo_import()
     from codelimit.common.lexer_utils import lex
     chk = Check("C16", tier, seed)
-    model_ok = chk.proof_stage(["Tok/LexProofs.vo"])
+    model_ok = chk.proof_stage(["Tok/LexProofs.vo", "Tok/LexPadProofs.vo", "Scope/TieProofs.vo"])
     cases = []
     # ---- stub lexer: every text over a small alphabet x every segmentation
     max_n = 5 if tier == "quick" else 6
